@@ -15,6 +15,7 @@ def load(repo_root='/repo', spec_dir=None):
         from . import alpha
         lp = os.path.join(os.path.dirname(os.path.dirname(os.path.abspath(__file__))), 'ledger.json')
         base = json.load(open(lp)).get('$alpha') if os.path.exists(lp) else None
+        repo.alpha_base = base or {}
         repo.alpha_renamed = alpha.normalise(repo, base)
     except Exception as e:      # never let the convenience break a run: without it renamed locals make units undecided
         repo.alpha_renamed = []
